@@ -212,7 +212,8 @@ class DESolver:
             X0_flat, dt = self.iterator(self._getdXdt, currTime, self._flattenX(X0), self._updateX)
             X0 = self._unflattenX(X0_flat, self._X0)
             
-            currTime += dt
+            #On the final step, land exactly on tf so that round-off in currTime + (tf - currTime) cannot overshoot or fall short
+            currTime = tf if dt >= tf - currTime else currTime + dt
             X0, stop = self.postProcess(currTime, X0)
             i += 1
 
